@@ -61,7 +61,7 @@ CHECKS = {
     ),
     "C19": (
         "model_checking",
-        "TLC: OASTopology numbering partition + mux/demux bijection, OASLaws.Permute composed with Mirror/Reorder/scaling (1-3 surfaces, mixed-side half models), OASWiring on the connection table of real AeroPoints; replay of permutations, column splits, far-away surfaces, MPhys wrapper groups (1-3 surfaces; wired explicitly and by promotion as an MPhys scenario does) vs native AeroPoint, multi-section surface handed to the point vs an ordinary surface with the unified mesh (ground plane, viscous, next to an ordinary surface), mux/demux permutation and Jacobian in fwd and rev, also with the multiplexer inside a group that has its own linear solver and only some surfaces fed from inside it",
+        "TLC: OASTopology numbering partition + mux/demux bijection, OASLaws.Permute composed with Mirror/Reorder/scaling (1-3 surfaces, mixed-side half models), OASWiring on the connection table of real AeroPoints; replay of permutations, column splits, far-away surfaces, MPhys wrapper groups (1-3 surfaces; wired explicitly and by promotion as an MPhys scenario does) vs native AeroPoint, a half-span symmetric and a full-span surface in one point (either order, half == full), multi-section surface handed to the point vs an ordinary surface with the unified mesh (ground plane, viscous, next to an ordinary surface), mux/demux permutation and Jacobian in fwd and rev, also with the multiplexer inside a group that has its own linear solver and only some surfaces fed from inside it",
         "Panel offsets and (de)multiplexer source indices are proved to be partitions/bijections for every surface list in the box; permutation behaviours are replayed (CM renormalised by the first surface's MAC), a full-span surface is split at every interior column, a surface is moved 10..1e6 chords away, and the MPhys solver/funcs groups fed through the spec's permutation must reproduce the native results; mux/demux total Jacobians must equal the spec's permutation matrix in both modes.",
         "<= 3 surfaces in replays; OASWiring for compressible x rotational x ground x user_specified_Sref; MPhys groups wired by hand without the MPI distributor. " + TRUSTED,
         "5 C19, 3.5",
@@ -138,7 +138,7 @@ CHECKS = {
     ),
     "C02": (
         "exploration",
-        "OASConfig covering sample + OASAdjoint (TLC: transposed solve or measured symmetry for every implicit component, both modes for matrix-free ones) + totals in fwd/rev with Direct, LinearBlockGS, ScipyKrylov vs each other and vs Richardson FD of the converged analysis along random directions; second design point on the live model vs a freshly built one",
+        "OASConfig covering sample (two-surface records mix a left-half with a right-half surface) + OASAdjoint (TLC: transposed solve or measured symmetry for every implicit component, both modes for matrix-free ones) + totals in fwd/rev with Direct, LinearBlockGS, ScipyKrylov vs each other and vs Richardson FD of the converged analysis along random directions; second design point on the live model vs a freshly built one",
         "Each sampled topology/option record (aero, struct, aerostruct, multipoint; 1-2 surfaces; compressible, ground, viscous/wave, weight relief, fuel, point masses, tube/wingbox) is built in forward and reverse mode with the three linear solvers; all total Jacobians of CL, CD, CM, fuel burn, failure, lift-equals-weight, structural mass w.r.t. every design variable and flight condition must agree pairwise and with the directional derivative of run_model; the symmetry of the assembled stiffness matrix that the FEM's single factorization relies on is measured (6e-17) and fed to the spec.",
         "Iterative solvers are judged converged by the Cauchy criterion (totals after 150 and 300 iterations agree); otherwise the combination is inconclusive (the documentation says they are not guaranteed to find the solution). Wingbox at exactly zero section twist is excluded: the analysis itself has a kink there (arccos). " + TRUSTED,
         "5 C02",
@@ -146,7 +146,7 @@ CHECKS = {
     "C18": (
         "exploration",
         "OASMonotone (TLC enumerates every chain of the parameter lattice) + TraceMonotone validation of the recorded signs of every step walked on the real VLMGeometry/ViscousDrag/WaveDrag; off => exactly 0; onset smoothness",
-        "Every chain of single-parameter moves (Reynolds number, thickness ratio, Mach, CL, laminar fraction, sweep, nx, ny) up to depth 3/4 is walked from the bottom of the lattice and from random interior points on a constant-chord untwisted wing; the sign of the change of CDv and CDw at each step is recorded and the trace validated by TLC against the direction table (CDv decreases with Re and increases with t/c and is positive; CDw never decreases with Mach or CL; both unchanged under nx/ny refinement); options off give exactly zero; CDw is zero up to the crest-critical Mach number and starts with zero value and slope.",
+        "Every chain of single-parameter moves (Reynolds number, thickness ratio, Mach, CL, laminar fraction, sweep, nx, ny) up to depth 3/4 is walked from the bottom of the lattice and from random interior points on a constant-chord untwisted wing; the sign of the change of CDv and CDw at each step is recorded and the trace validated by TLC against the direction table (CDv decreases with Re and increases with t/c and is positive; CDw never decreases with Mach or CL (lattice of CL from a down-loaded surface through zero lift); both unchanged under nx/ny refinement); options off give exactly zero; CDw is zero up to the crest-critical Mach number and starts with zero value and slope.",
         "The formulas are empirical and stay in the code: the spec contributes order structure, exhaustive traversal and the acceptance predicate (exploration level). " + TRUSTED,
         "5 C18",
     ),
